@@ -1,7 +1,17 @@
 /-
-  QKV.Model.Print — `__str__` of the 14 registered quantizer classes (qkeras/quantizers.py),
-  transcribed flag by flag (`flags.append(...)`, `",".join(flags)`), exceptions included, and
-  the string round trip `get_quantizer(str(q))`.  Core Lean only.
+  QKV.Model.Print — `__str__` of the 14 registered quantizer classes (qkeras/quantizers.py, after
+  the fix round) and the string round trip `get_quantizer(str(q))`.  Core Lean only.
+
+  Every `__str__` is a list of statements `if <condition on the option>: flags.append(<text>)`
+  followed by `",".join(flags)`.  The model keeps one table row (`FlagSpec`) per statement:
+  the option, the condition, and how the value becomes text.  Two kinds of rows:
+  * positional flags (`posSpec`): printed without a name, in constructor order.  After the fix a
+    positional flag is printed when its own condition holds *or a later positional flag is
+    printed* (`if self.use_sigmoid or self.negative_slope or self.use_stochastic_rounding:`), so
+    that every value stays in the slot of its own argument;
+  * keyword flags (`kwSpec`): printed as `name=text` when their own condition holds.
+  Not printed by any class (kept as recorded findings / untracked): `qnoise_factor` (training-time
+  state that may hold a tensor), `var_name`, `use_variables`, `post_training_scale`.
 -/
 import QKV.Model.Parse
 namespace QKV.Py
@@ -15,127 +25,186 @@ def strInt (v : PyVal) : Except Err String :=
 /-- the `alpha` flag shared by most classes: `str(alpha)`, quoted when it is a string -/
 def alphaText (a : PyVal) : String := if a.isStr then "'" ++ a.pyStr ++ "'" else a.pyStr
 
-def joinFlags (fl : List String) : String := ",".intercalate fl
-
-/-- `list_to_str` / scalar printing of binary's `scale_axis` and `elements_per_scale` -/
+/-- `str(v).replace(" ", "")` / binary's `list_to_str`: a list prints as `[a,b]` -/
 def listOrScalar (v : PyVal) : String :=
   match v with
   | .list l => "[" ++ ",".intercalate (l.map Num.pyStr) ++ "]"
   | _ => v.pyStr
 
-def opt (c : Bool) (s : String) : List String := if c then [s] else []
+/-- the `if` in front of a `flags.append` -/
+inductive Cond where
+  | always
+  | truthy               -- `if self.x:`
+  | falsy                -- `if not self.x:`
+  | notNone              -- `if self.x is not None:`
+  | ne (d : PyVal)       -- `if self.x != d:`
+  deriving DecidableEq, Repr
 
-/-- the list `flags` built by `__str__` (or the exception it raises) -/
-def flags (q : Q) : Except Err (List String) :=
-  let g := q.get
-  match q.cls with
-  | .quantized_linear => do
-    let b ← strInt (g "bits")
-    let i ← strInt (g "integer")
-    let s ← strInt (g "symmetric")
-    -- `elif self.alpha is not None: alpha = np.array(alpha)` reads the unassigned local
-    if !(g "alpha").isStr && !(g "alpha").isNone then .error .unboundLocal else
-    let usr ← (if (g "use_stochastic_rounding").truthy
-               then (strInt (g "use_stochastic_rounding")).map fun t => ["use_stochastic_rounding=" ++ t]
-               else .ok [])
-    pure ([b, i, s] ++ opt (!(g "keep_negative").truthy) "keep_negative=False"
-          ++ opt (g "alpha").isStr ("alpha='" ++ (g "alpha").pyStr ++ "'") ++ usr)
-  | .quantized_bits => do
-    let s ← strInt (g "symmetric")
-    let usr ← (if (g "use_stochastic_rounding").truthy
-               then (strInt (g "use_stochastic_rounding")).map fun t => ["use_stochastic_rounding=" ++ t]
-               else .ok [])
-    pure ([(g "bits").pyStr, (g "integer").pyStr, s]
-          ++ opt (!(g "keep_negative").truthy) "keep_negative=False"
-          ++ opt (g "alpha").truthy ("alpha=" ++ alphaText (g "alpha")) ++ usr)
-  | .bernoulli | .stochastic_binary => do
-    let urs ← (if !(g "use_real_sigmoid").truthy
-               then (strInt (g "use_real_sigmoid")).map fun t => ["use_real_sigmoid=" ++ t]
-               else .ok [])
-    let dflt : PyVal := .float 6
-    pure (opt (!(g "alpha").isNone) ("alpha=" ++ alphaText (g "alpha"))
-          ++ opt (!(g "temperature").pyEq dflt) ("temperature=" ++ (g "temperature").pyStr) ++ urs)
-  | .ternary => do
-    let usr ← (if (g "use_stochastic_rounding").truthy
-               then (strInt (g "use_stochastic_rounding")).map fun t => ["use_stochastic_rounding=" ++ t]
-               else .ok [])
-    let nou ← (if !(g "number_of_unrolls").pyEq (.int 5)
-               then (strInt (g "number_of_unrolls")).map fun t => ["number_of_unrolls=" ++ t]
-               else .ok [])
-    pure (opt (!(g "alpha").isNone) ("alpha=" ++ alphaText (g "alpha"))
-          ++ opt (!(g "threshold").isNone) ("threshold=" ++ (g "threshold").pyStr) ++ usr ++ nou)
+def Cond.holds : Cond → PyVal → Bool
+  | .always, _ => true
+  | .truthy, v => v.truthy
+  | .falsy, v => !v.truthy
+  | .notNone, v => !v.isNone
+  | .ne d, v => !v.pyEq d
+
+/-- how the value of a flag becomes text -/
+inductive Conv where
+  | str                            -- `str(x)`
+  | int                            -- `str(int(x))`
+  | alpha                          -- `str(x)`, in single quotes when `x` is a string
+  | quoted                         -- `"'" + str(x) + "'"`
+  | lit (s : String) (v : PyVal)   -- a constant text (`"keep_negative=False"`), denoting `v`
+  | intOrList                      -- `str(x).replace(" ", "")`
+  | po2max                         -- `_po2_max_value_to_str(x)`
+  deriving DecidableEq, Repr
+
+/-- one printed flag: keyword (`none` = positional), the Python value the text denotes, the text -/
+structure Flag where
+  key : Option String
+  val : PyVal
+  text : String
+  deriving DecidableEq, Repr
+
+/-- the text appended to `flags`: `text` or `name=text` -/
+def Flag.chars (f : Flag) : List Char :=
+  match f.key with
+  | none => f.text.toList
+  | some k => k.toList ++ '=' :: f.text.toList
+
+/-- `_po2_max_value_to_str`: "None", the integer text of an integral value, else `str(x)` -/
+def po2MaxValue (v : PyVal) : Except Err (PyVal × String) :=
+  match v with
+  | .none => .ok (.none, "None")
+  | _ =>
+    match v.pyInt, v.numVal with
+    | .ok i, some x => if x == (i : Rat) then .ok (.int i, toString i) else .ok (v, v.pyStr)
+    | .error e, _ => .error e
+    | .ok _, Option.none => .error .typeError
+
+/-- the value denoted and the text printed for option value `v` -/
+def Conv.apply : Conv → PyVal → Except Err (PyVal × String)
+  | .str, v => .ok (v, v.pyStr)
+  | .int, v =>
+    match v.pyInt with
+    | .ok i => .ok (.int i, toString i)
+    | .error e => .error e
+  | .alpha, v => .ok (v, alphaText v)
+  | .quoted, v => .ok (v, "'" ++ v.pyStr ++ "'")
+  | .lit s d, _ => .ok (d, s)
+  | .intOrList, v => .ok (v, listOrScalar v)
+  | .po2max, v => po2MaxValue v
+
+/-- one `if cond(self.name): flags.append(text(self.name))` -/
+structure FlagSpec where
+  name : String
+  cond : Cond
+  conv : Conv
+  deriving DecidableEq, Repr
+
+/-- the positional flags of `__str__`, in the order they are appended -/
+def posSpec : Cls → List FlagSpec
+  | .quantized_linear => [⟨"bits", .always, .int⟩, ⟨"integer", .always, .int⟩, ⟨"symmetric", .always, .int⟩]
+  | .quantized_bits => [⟨"bits", .always, .str⟩, ⟨"integer", .always, .str⟩, ⟨"symmetric", .always, .int⟩]
+  | .bernoulli | .stochastic_binary | .ternary | .stochastic_ternary | .binary => []
+  | .quantized_relu =>
+    [⟨"bits", .always, .str⟩, ⟨"integer", .always, .str⟩, ⟨"use_sigmoid", .truthy, .int⟩, ⟨"negative_slope", .truthy, .str⟩,
+     ⟨"use_stochastic_rounding", .truthy, .int⟩]
+  | .quantized_ulaw =>
+    [⟨"bits", .always, .str⟩, ⟨"integer", .always, .str⟩, ⟨"symmetric", .truthy, .int⟩, ⟨"u", .ne (.float 255), .str⟩]
+  | .quantized_tanh =>
+    [⟨"bits", .always, .str⟩, ⟨"use_stochastic_rounding", .truthy, .int⟩, ⟨"symmetric", .truthy, .int⟩, ⟨"use_real_tanh", .truthy, .int⟩]
+  | .quantized_sigmoid =>
+    [⟨"bits", .always, .str⟩, ⟨"symmetric", .truthy, .int⟩, ⟨"use_real_sigmoid", .truthy, .int⟩, ⟨"use_stochastic_rounding", .truthy, .int⟩]
+  | .quantized_po2 => [⟨"bits", .always, .str⟩, ⟨"max_value", .notNone, .po2max⟩, ⟨"use_stochastic_rounding", .truthy, .int⟩]
+  | .quantized_relu_po2 =>
+    [⟨"bits", .always, .str⟩, ⟨"max_value", .notNone, .po2max⟩, ⟨"negative_slope", .truthy, .str⟩,
+     ⟨"use_stochastic_rounding", .truthy, .int⟩]
+  | .quantized_hswish => [⟨"bits", .always, .str⟩, ⟨"integer", .always, .str⟩, ⟨"symmetric", .always, .int⟩]
+
+/-- the keyword flags of `__str__`, in the order they are appended -/
+def kwSpec : Cls → List FlagSpec
+  | .quantized_linear =>
+    [⟨"keep_negative", .falsy, .lit "False" (.bool false)⟩, ⟨"alpha", .notNone, .alpha⟩, ⟨"use_stochastic_rounding", .truthy, .int⟩,
+     ⟨"scale_axis", .notNone, .intOrList⟩]
+  | .quantized_bits =>
+    [⟨"keep_negative", .falsy, .lit "False" (.bool false)⟩, ⟨"alpha", .truthy, .alpha⟩, ⟨"use_stochastic_rounding", .truthy, .int⟩,
+     ⟨"scale_axis", .notNone, .intOrList⟩, ⟨"use_ste", .falsy, .lit "False" (.bool false)⟩, ⟨"elements_per_scale", .notNone, .intOrList⟩,
+     ⟨"min_po2_exponent", .notNone, .str⟩, ⟨"max_po2_exponent", .notNone, .str⟩]
+  | .bernoulli | .stochastic_binary =>
+    [⟨"alpha", .notNone, .alpha⟩, ⟨"temperature", .ne (.float 6), .str⟩, ⟨"use_real_sigmoid", .falsy, .int⟩]
+  | .ternary =>
+    [⟨"alpha", .notNone, .alpha⟩, ⟨"threshold", .notNone, .str⟩, ⟨"use_stochastic_rounding", .truthy, .int⟩,
+     ⟨"number_of_unrolls", .ne (.int 5), .int⟩]
   | .stochastic_ternary =>
-    .ok (opt (!(g "alpha").isNone) ("alpha=" ++ alphaText (g "alpha"))
-         ++ opt (!(g "threshold").isNone) ("threshold=" ++ (g "threshold").pyStr)
-         ++ opt (!(g "temperature").pyEq (.float 8)) ("temperature=" ++ (g "temperature").pyStr)
-         ++ opt (!(g "use_real_sigmoid").truthy) "use_real_sigmoid=0"
-         ++ opt (!(g "number_of_unrolls").pyEq (.int 5))
-              ("number_of_unrolls=" ++ (g "number_of_unrolls").pyStr))
-  | .binary => do
-    let u01 ← (if (g "use_01").truthy then (strInt (g "use_01")).map fun t => ["use_01=" ++ t]
-               else .ok [])
-    pure (u01 ++ opt (!(g "alpha").isNone) ("alpha=" ++ alphaText (g "alpha"))
-          ++ opt (!(g "elements_per_scale").isNone)
-               ("elements_per_scale=" ++ listOrScalar (g "elements_per_scale"))
-          ++ opt (!(g "scale_axis").isNone) ("scale_axis=" ++ listOrScalar (g "scale_axis"))
-          ++ opt (!(g "min_po2_exponent").isNone) ("min_po2_exponent=" ++ (g "min_po2_exponent").pyStr)
-          ++ opt (!(g "max_po2_exponent").isNone) ("max_po2_exponent=" ++ (g "max_po2_exponent").pyStr)
-          ++ opt (g "use_stochastic_rounding").truthy
-               ("use_stochastic_rounding=" ++ (g "use_stochastic_rounding").pyStr))
-  | .quantized_relu => do
-    let us ← (if (g "use_sigmoid").truthy || (g "use_stochastic_rounding").truthy
-              then (strInt (g "use_sigmoid")).map fun t => [t] else .ok [])
-    let usr ← (if (g "use_stochastic_rounding").truthy
-               then (strInt (g "use_stochastic_rounding")).map fun t => [t] else .ok [])
-    pure ([(g "bits").pyStr, (g "integer").pyStr] ++ us
-          ++ opt (g "negative_slope").truthy (g "negative_slope").pyStr ++ usr)
-  | .quantized_ulaw => do
-    let dflt : PyVal := .float 255
-    let sy ← (if (g "symmetric").truthy || !(g "u").pyEq dflt
-              then (strInt (g "symmetric")).map fun t => [t] else .ok [])
-    pure ([(g "bits").pyStr, (g "integer").pyStr] ++ sy ++ opt (!(g "u").pyEq dflt) (g "u").pyStr)
-  | .quantized_tanh => do
-    let a ← (if (g "use_stochastic_rounding").truthy
-             then (strInt (g "use_stochastic_rounding")).map fun t => [t] else .ok [])
-    let b ← (if (g "symmetric").truthy then (strInt (g "symmetric")).map fun t => [t] else .ok [])
-    let c ← (if (g "use_real_tanh").truthy then (strInt (g "use_real_tanh")).map fun t => [t]
-             else .ok [])
-    pure ([(g "bits").pyStr] ++ a ++ b ++ c)
-  | .quantized_sigmoid => do
-    let a ← (if (g "symmetric").truthy then (strInt (g "symmetric")).map fun t => [t] else .ok [])
-    let b ← (if (g "use_real_sigmoid").truthy then (strInt (g "use_real_sigmoid")).map fun t => [t]
-             else .ok [])
-    let c ← (if (g "use_stochastic_rounding").truthy
-             then (strInt (g "use_stochastic_rounding")).map fun t => [t] else .ok [])
-    pure ([(g "bits").pyStr] ++ a ++ b ++ c)
-  | .quantized_po2 => do
-    let mv ← (if !(g "max_value").isNone || (g "use_stochastic_rounding").truthy
-              then (strInt (g "max_value")).map fun t => [t] else .ok [])
-    let usr ← (if (g "use_stochastic_rounding").truthy
-               then (strInt (g "use_stochastic_rounding")).map fun t => [t] else .ok [])
-    let qa ← (if (g "quadratic_approximation").truthy
-              then (strInt (g "quadratic_approximation")).map fun t => ["quadratic_approximation=" ++ t]
-              else .ok [])
-    pure ([(g "bits").pyStr] ++ mv ++ usr ++ qa)
-  | .quantized_relu_po2 => do
-    let mv ← (if !(g "max_value").isNone || (g "use_stochastic_rounding").truthy
-              then (strInt (g "max_value")).map fun t => [t] else .ok [])
-    let usr ← (if (g "use_stochastic_rounding").truthy
-               then (strInt (g "use_stochastic_rounding")).map fun t => [t] else .ok [])
-    let qa ← (if (g "quadratic_approximation").truthy
-              then (strInt (g "quadratic_approximation")).map fun t => ["quadratic_approximation=" ++ t]
-              else .ok [])
-    pure ([(g "bits").pyStr] ++ mv ++ opt (g "negative_slope").truthy (g "negative_slope").pyStr
-          ++ usr ++ qa)
+    [⟨"alpha", .notNone, .alpha⟩, ⟨"threshold", .notNone, .str⟩, ⟨"temperature", .ne (.float 8), .str⟩,
+     ⟨"use_real_sigmoid", .falsy, .lit "0" (.int 0)⟩, ⟨"number_of_unrolls", .ne (.int 5), .str⟩]
+  | .binary =>
+    [⟨"use_01", .truthy, .int⟩, ⟨"alpha", .notNone, .alpha⟩, ⟨"elements_per_scale", .notNone, .intOrList⟩,
+     ⟨"scale_axis", .notNone, .intOrList⟩, ⟨"min_po2_exponent", .notNone, .str⟩, ⟨"max_po2_exponent", .notNone, .str⟩,
+     ⟨"use_stochastic_rounding", .truthy, .str⟩]
+  | .quantized_relu =>
+    [⟨"relu_upper_bound", .notNone, .str⟩, ⟨"is_quantized_clip", .falsy, .lit "False" (.bool false)⟩, ⟨"use_ste", .falsy, .lit "False" (.bool false)⟩]
+  | .quantized_ulaw | .quantized_tanh | .quantized_sigmoid => []
+  | .quantized_po2 | .quantized_relu_po2 =>
+    [⟨"quadratic_approximation", .truthy, .int⟩, ⟨"log2_rounding", .ne (.str "rnd"), .quoted⟩,
+     ⟨"use_ste", .falsy, .lit "False" (.bool false)⟩]
   | .quantized_hswish =>
-    -- `assert isinstance(integer_bits, int)` on the result of `re.sub`, which is a str
-    .error .assertionError
+    -- `keep_negative` is not a constructor argument of this class (always True): never printed
+    [⟨"relu_shift", .always, .str⟩, ⟨"relu_upper_bound", .always, .str⟩, ⟨"alpha", .truthy, .alpha⟩,
+     ⟨"use_stochastic_rounding", .truthy, .int⟩, ⟨"scale_axis", .notNone, .intOrList⟩]
 
-/-- `str(q)` -/
-def printQ (q : Q) : Except Err String :=
-  match flags q with
+def mkFlag (key : Option String) (s : FlagSpec) (v : PyVal) : Except Err Flag :=
+  match s.conv.apply v with
+  | .ok r => .ok ⟨key, r.1, r.2⟩
   | .error e => .error e
-  | .ok fl => .ok (q.cls.name ++ "(" ++ joinFlags fl ++ ")")
+
+/-- positional flags: a flag is printed when its condition holds or a later one is printed -/
+def posFlags (g : String → PyVal) : List FlagSpec → Except Err (List Flag)
+  | [] => .ok []
+  | s :: rest =>
+    match posFlags g rest with
+    | .error e => .error e
+    | .ok tail =>
+      if s.cond.holds (g s.name) || !tail.isEmpty then
+        match mkFlag none s (g s.name) with
+        | .ok f => .ok (f :: tail)
+        | .error e => .error e
+      else .ok []
+
+/-- keyword flags: each printed when its own condition holds -/
+def kwFlags (g : String → PyVal) : List FlagSpec → Except Err (List Flag)
+  | [] => .ok []
+  | s :: rest =>
+    match kwFlags g rest with
+    | .error e => .error e
+    | .ok tail =>
+      if s.cond.holds (g s.name) then
+        match mkFlag (some s.name) s (g s.name) with
+        | .ok f => .ok (f :: tail)
+        | .error e => .error e
+      else .ok tail
+
+/-- the flags `__str__` prints (or the exception it raises) -/
+def flagsF (q : Q) : Except Err (List Flag) :=
+  match posFlags q.get (posSpec q.cls), kwFlags q.get (kwSpec q.cls) with
+  | .ok p, .ok k => .ok (p ++ k)
+  | .error e, _ => .error e
+  | _, .error e => .error e
+
+/-- `str(q)`: `name + "(" + ",".join(flags) + ")"` -/
+def printQ (q : Q) : Except Err String :=
+  match flagsF q with
+  | .error e => .error e
+  | .ok fl =>
+    .ok (String.ofList (q.cls.name.toList ++ '(' :: (joinComma (fl.map Flag.chars) ++ [')'])))
+
+/-- the positional values the printed flags denote, in order -/
+def posVals (fl : List Flag) : List PyVal :=
+  fl.filterMap fun f => match f.key with | none => some f.val | some _ => Option.none
+
+/-- the keyword values the printed flags denote, in order -/
+def kwVals (fl : List Flag) : Env :=
+  fl.filterMap fun f => match f.key with | none => Option.none | some k => some (k, f.val)
 
 /-- `get_quantizer(str(q))` -/
 def reparse (q : Q) : Except Err Q :=
